@@ -245,3 +245,21 @@ package cache
 //@   assert at store cache.nxDomainCutEntry.expires#1: forall j int :: {proof.Ns[j]} 0 <= j && j < len(proof.Ns) && dyntype(proof.Ns[j], *dns.RRSIG) ==> ttl <= time.Duration(as(proof.Ns[j], *dns.RRSIG).OrigTtl) * 1000000000 && ttl <= sigUntil(as(proof.Ns[j], *dns.RRSIG), now)
 //@   assert at store cache.nxDomainCutEntry.expires#1: (!tzero(cutUntil) && real(cutUntil) ==> ttl <= inst(cutUntil) - inst(now)) && (ttl < 1000000000000000000 ==> inst(value) == inst(now) + ttl)
 //@   assert at store cache.nxDomainCutEntry.expires#1: old(msg.Rcode) == dns.RcodeNameError && !old(msg.CheckingDisabled)
+//@
+//@ # ---- C04 / C03: a background refresh replaces an entry ONLY by compare-and-swap against the entry it claimed
+//@ # (never by a plain Set/Add), and the replacement inherits the claimed entry's CD partition and ECS scope
+//@ func (*Store).ReplaceIfCurrent$1
+//@   requires expected != nil
+//@   ensures entry == nil ==> result == nil
+//@   ensures entry != nil ==> result == entry && entry.cd == expected.cd && entry.scope == expected.scope && entry.cutUntil == cutUntil && entry.cutKey == cutKey
+//@
+//@ func (*Store).ReplaceIfCurrent
+//@   nosafety all
+//@   opaque internal/dnsutil.CalculateCacheTTL (*internal/cache.Cache).CompareAndSwap
+//@   note classification, TTL derivation and entry construction are havoced here; only the write discipline is claimed
+//@   requires s != nil && s.positive != nil && s.negative != nil && resp != nil
+//@   ensures calls("(*middleware/cache.PositiveCache).Set") == 0 && calls("(*middleware/cache.NegativeCache).Set") == 0 && calls("(*internal/cache.Cache).Add") == 0
+//@   ensures result ==> calls("(*internal/cache.Cache).CompareAndSwap") == 1
+//@   ensures calls("(*internal/cache.Cache).CompareAndSwap") <= 1
+//@   assert at call (*internal/cache.Cache).CompareAndSwap#1: arg1 == key && dyntype(arg2, *CacheEntry) && as(arg2, *CacheEntry) == expected && expected != nil
+//@   assert at call (*internal/cache.Cache).CompareAndSwap#2: arg1 == key && dyntype(arg2, *CacheEntry) && as(arg2, *CacheEntry) == expected && expected != nil
